@@ -1607,6 +1607,50 @@ def check_c14(tier, seed):
                             if not isinstance(gr, np.ndarray) or gr.shape != t.shape or gr.dtype != t.dtype:
                                 b.fail("C14.bounded.I1", dict(d5, tensor=nm_), f"grad type/shape/dtype = {type(gr).__name__}/{getattr(gr,'shape',None)}/{getattr(gr,'dtype',None)} vs tensor {t.shape}/{t.dtype}")
                         b.case(d5)
+    # operations whose backward_var hands back a VIEW of the incoming gradient (joins, item assignment with a tensor value), fed pieces of
+    # MIXED float precision: the incoming gradient has the promoted dtype, each piece's stored gradient must have the piece's own dtype and shape
+    # -- for every piece shape, in particular pieces all of whose axes have length 1 and 0-d pieces (no stride distinguishes their layouts)
+    fl = (np.float16, np.float32, np.float64)
+    joins = [("concatenate axis=0", lambda a, c: mg.concatenate((a, c), axis=0), lambda sa, sc: len(sa) >= 1 and len(sc) == len(sa) and sa[1:] == sc[1:]),
+             ("concatenate axis=-1", lambda a, c: mg.concatenate((a, c), axis=-1), lambda sa, sc: len(sa) >= 1 and len(sc) == len(sa) and sa[:-1] == sc[:-1]),
+             ("concatenate axis=None", lambda a, c: mg.concatenate((a, c), axis=None), lambda sa, sc: True),
+             ("stack axis=0", lambda a, c: mg.stack((a, c), axis=0), lambda sa, sc: sa == sc and len(sa) >= 1),
+             ("stack axis=-1", lambda a, c: mg.stack((a, c), axis=-1), lambda sa, sc: sa == sc and len(sa) >= 1),
+             ("setitem tensor value", None, lambda sa, sc: len(sc) >= 1 and sa == sc[1:] or sa == sc),
+             ("hstack", lambda a, c: mg.hstack((a, c)) if hasattr(mg, "hstack") else mg.concatenate((mg.atleast_1d(a), mg.atleast_1d(c)), axis=0), lambda sa, sc: len(sa) == 1 and len(sc) == 1)]
+    pshapes = [(), (1,), (1, 1), (1, 1, 1), (2,), (3,), (1, 2), (2, 1), (2, 3), (3, 1)]
+    for jn, jf, ok_ in joins:
+        for sa in pshapes:
+            for sc in pshapes:
+                if not ok_(sa, sc):
+                    continue
+                for lo in fl:
+                    for hi in fl:
+                        if np.dtype(lo).itemsize >= np.dtype(hi).itemsize:
+                            continue
+                        for narrow_first in (True, False):
+                            a = mg.tensor(np.asarray(rng.uniform(1, 2, size=sa), dtype=lo))
+                            c = mg.tensor(np.asarray(rng.uniform(1, 2, size=sc), dtype=hi))
+                            d6 = dict(family="mixed-precision pieces of a join / assigned value", op=jn, narrow=[list(sa), np.dtype(lo).name], wide=[list(sc), np.dtype(hi).name], narrow_first=narrow_first)
+                            b.count("I1 for pieces of mixed precision")
+                            try:
+                                if jf is None:
+                                    tgt = +c
+                                    if sa == sc:
+                                        tgt[...] = a
+                                    else:
+                                        tgt[0] = a
+                                    out = tgt
+                                else:
+                                    out = jf(a, c) if narrow_first else jf(c, a)
+                                (out * np.arange(1.0, out.size + 1.0).reshape(out.shape)).sum().backward()
+                            except Exception as e:
+                                continue  # NumPy / MyGrad refuse this combination: not a case
+                            for nm_, t in (("narrow piece", a), ("wide piece", c)):
+                                gr = t.grad
+                                if gr is None or not isinstance(gr, np.ndarray) or gr.shape != t.shape or gr.dtype != t.dtype:
+                                    b.fail("C14.bounded.I1.mixed_precision_pieces", dict(d6, tensor=nm_), f"grad type/shape/dtype = {type(gr).__name__}/{getattr(gr,'shape',None)}/{getattr(gr,'dtype',None)} vs tensor {t.shape}/{t.dtype}")
+                            b.case(d6)
     # the terminal tensor in every graph position: leaf, intermediate, view of a leaf, view that already went through a backward pass
     # (its graph is cleared, its base link lingers), view whose base holds a gradient: L.backward([g]) leaves L.grad = the seed
     def terminals():
